@@ -26,11 +26,20 @@ def sanitizeGo (alnum : Char → Bool) : Option Char → List Char → List Char
     let o := if keep then c else '_'
     o :: sanitizeGo alnum (some o) rest
 
-/-- `type_name(prefix, name)` -/
-def typeName (alnum alpha : Char → Bool) (pre name : List Char) : List Char :=
+/-- words that are not a type name on their own (`TYPE_KEYWORDS`) -/
+def typeKeywords : List (List Char) :=
+  ["fun".toList, "async".toList, "true".toList, "false".toList, "keyof".toList, "extends".toList,
+   "as".toList, "in".toList, "and".toList, "or".toList, "else".toList]
+
+def sanitized (alnum alpha : Char → Bool) (pre name : List Char) : List Char :=
   match sanitizeGo alnum none (pre ++ name) with
   | [] => ['_']
   | c :: r => if alpha c || c == '_' then c :: r else '_' :: c :: r
+
+/-- `type_name(prefix, name)` -/
+def typeName (alnum alpha : Char → Bool) (pre name : List Char) : List Char :=
+  let r := sanitized alnum alpha pre name
+  if typeKeywords.contains r then r ++ ['_'] else r
 
 /-- the loop of `read_doc_name` after the first character: (consumed, rest) -/
 def readNameRest (alnum : Char → Bool) : List Char → List Char × List Char
@@ -174,15 +183,66 @@ def fieldType (k : Kind) (optional : Bool) : List Char :=
   let t := resolveType k
   if optional && !endsWithQ t then parenthesized t ++ ['?'] else t
 
-/-- `needs_bracket_notation` (ASCII predicates in the real code too) -/
-def needsBracket (n : List Char) : Bool :=
-  match n with
-  | [] => true
-  | c :: _ => !(c.isAlpha || c == '_') || !(n.all fun c => c.isAlphanum || c == '_')
+/-- words `---@field` reads as a modifier instead of a name (`FIELD_MODIFIERS`) -/
+def fieldModifiers : List (List Char) :=
+  ["private".toList, "protected".toList, "public".toList, "package".toList, "readonly".toList]
 
-def docLines (t : List Char) : List (List Char) := (commentLines t).map ("--- ".toList ++ ·)
+def plainIdent (n : List Char) : Bool :=
+  match n with
+  | [] => false
+  | c :: _ => (c.isAlpha || c == '_') && (n.all fun c => c.isAlphanum || c == '_')
+
+/-- `needs_bracket_notation` (ASCII predicates in the real code too) -/
+def needsBracket (n : List Char) : Bool := fieldModifiers.contains n || !plainIdent n
+
+/-- white space of the doc lexer -/
+def isDocWs (c : Char) : Bool := c == ' ' || c == '\t' || c == '\r' || c == '\n'
+
+/-- The doc lexer in the description of a normal comment line, after the comment start: white space
+is skipped; `---` followed (after white space) by `@` starts a tag, otherwise `---`, `--`, `///`, `//`
+are further comment starts and lexing goes on behind them (every token starts "at the start of a
+line" for `Reader::is_start_of_line`); anything else ends the line as description text. The `Nat`
+is fuel (the remaining length suffices). -/
+def tagAfter : Nat → List Char → Bool
+  | 0, _ => false
+  | f + 1, l =>
+    match l.dropWhile isDocWs with
+    | '-' :: '-' :: '-' :: rest =>
+      (match rest.dropWhile isDocWs with
+       | '@' :: _ => true
+       | r => tagAfter f r)
+    | '-' :: '-' :: rest => tagAfter f rest
+    | '/' :: '/' :: '/' :: rest => tagAfter f rest
+    | '/' :: '/' :: rest => tagAfter f rest
+    | _ => false
+
+/-- is (part of) this comment line lexed as an annotation tag? At the start of the line: three
+dashes, white space, `@`; else the rule of `tagAfter` for what follows. -/
+def tagStart : List Char → Bool
+  | '-' :: '-' :: '-' :: rest =>
+    (match rest.dropWhile isDocWs with
+     | '@' :: _ => true
+     | r => tagAfter (r.length + 1) r)
+  | _ => false
+
+/-- characters that may precede a tag-starting `@` -/
+def isTagLead (c : Char) : Bool := isDocWs c || c == '-' || c == '/'
+
+/-- a description line whose first character other than white space, `-`, `/` is `@` gets a
+backslash in front -/
+def escapeTag (l : List Char) : List Char :=
+  if (l.dropWhile isTagLead).head? == some '@' then '\\' :: l else l
+
+def docLines (t : List Char) : List (List Char) :=
+  (commentLines t).map fun l => "--- ".toList ++ escapeTag l
 
 def skippedLine : List Char := "--- (a field whose name cannot be written in an annotation was skipped)".toList
+
+/-- the key of a `---@field` line: the plain name, a bracketed string literal, or nothing when the
+name cannot be written -/
+def fieldKey (name : List Char) : Option (List Char) :=
+  if needsBracket name then (stringLiteral name).map fun lit => '[' :: lit ++ [']']
+  else some name
 
 /-- `write_field` -/
 def fieldLines (p : Prop') : List (List Char) :=
@@ -190,11 +250,9 @@ def fieldLines (p : Prop') : List (List Char) :=
     | some d => docLines d
     | none => []
   let ty := fieldType p.kind (!p.required)
-  if needsBracket p.name then
-    match stringLiteral p.name with
-    | some lit => d ++ ["---@field [".toList ++ lit ++ "] ".toList ++ ty]
-    | none => d ++ [skippedLine]
-  else d ++ ["---@field ".toList ++ p.name ++ ' ' :: ty]
+  match fieldKey p.name with
+  | some k => d ++ ["---@field ".toList ++ k ++ ' ' :: ty]
+  | none => d ++ [skippedLine]
 
 def classLine (priv : Bool) (name : List Char) : List Char :=
   "---@class".toList ++ (if priv then "(file)".toList else []) ++ ' ' :: name
